@@ -119,6 +119,10 @@ func init() {
 			}
 			return nil
 		},
+		"vsymPoolReuse": func(m *Machine, _ *frame, _ *ssa.Function, a []value) value {
+			m.poolReuse = a[0].(*Term).K != 0
+			return nil
+		},
 		"vsymLiveGoroutines": func(m *Machine, _ *frame, _ *ssa.Function, a []value) value {
 			n := 0
 			for _, co := range m.sched.cos {
@@ -202,6 +206,7 @@ func init() {
 	models["(*strings.Builder).Grow"] = modelBuilderGrow
 	registerSyncModels()
 	registerTimeModels()
+	registerFmtModels()
 	// package-level logging of the module under test: diagnostics only, empty bodies
 	prefixModels = append(prefixModels, prefixModel{prefix: "github.com/arloliu/go-secs/v2/logger.", pick: func(fn *ssa.Function, name string) interceptFn {
 		switch fn.Name() {
@@ -543,7 +548,7 @@ func modelErrorf(m *Machine, caller *frame, _ *ssa.Function, a []value) value {
 
 func modelSprintf(m *Machine, caller *frame, _ *ssa.Function, a []value) value {
 	format, _ := concreteString(a[0])
-	return m.miniFormat(caller, format, a[1].([]value))
+	return m.mkStr(m.fmtBytes(caller, format, a[1].([]value)))
 }
 
 func modelSprint(m *Machine, caller *frame, _ *ssa.Function, a []value) value {
